@@ -70,6 +70,8 @@ enum Op2 {
     Open { fields: [Option<Val>; 6], empty_site: bool, parent: Parent, wide: Option<(u32, u64)> },
     Close,
     Record { level: usize, field: usize, val: Val },
+    /// record() a value on field `f` whose Debug impl emits a counter while it is being formatted
+    RecordEmitting { level: usize },
     Emit { kind: char, name: String, labels: Vec<(String, String)> },
 }
 
@@ -112,7 +114,11 @@ fn dec_ops(src: &mut Source) -> Vec<Op2> {
             3 => Op2::Close,
             4 => {
                 let field = src.below(6);
-                Op2::Record { level: src.below(4), field, val: dec_val(src, field) }
+                if field == 5 && src.chance(128) {
+                    Op2::RecordEmitting { level: src.below(4) }
+                } else {
+                    Op2::Record { level: src.below(4), field, val: dec_val(src, field) }
+                }
             }
             _ => {
                 let labels = src.vec(3, |s| (s.pick(&["a", "b", "f", "x", "y"]).to_string(), s.pick(&["m1", "m2", ""]).to_string()));
@@ -222,6 +228,24 @@ fn record_on(span: &tracing::Span, field: usize, val: &Val) {
     }
 }
 
+thread_local! {
+    /// the recorder an `EmitOnFmt` value emits through (set for the duration of a thread's program)
+    static FMT_RECORDER: std::cell::Cell<Option<*const (dyn Recorder + Sync)>> = const { std::cell::Cell::new(None) };
+}
+
+/// A field value whose `Debug` impl emits a counter: the emission happens in the middle of `Span::record`.
+struct EmitOnFmt;
+impl std::fmt::Debug for EmitOnFmt {
+    fn fmt(&self, f: &mut std::fmt::Formatter<'_>) -> std::fmt::Result {
+        if let Some(p) = FMT_RECORDER.with(|c| c.get()) {
+            // SAFETY: the pointer is set by run_thread for exactly the time its recorder reference is alive
+            let rec: &(dyn Recorder + Sync) = unsafe { &*p };
+            rec.register_counter(&Key::from_name("from_fmt"), &META).increment(1);
+        }
+        f.write_str("emit")
+    }
+}
+
 type MapModel = Vec<(String, String)>;
 
 fn set(map: &mut MapModel, k: &str, v: String) {
@@ -234,6 +258,15 @@ fn set(map: &mut MapModel, k: &str, v: String) {
 
 fn run_thread(ops: &[Op2], filter: &Filter, rec: &(dyn Recorder + Sync), log: &crate::doubles::Log) -> Result<bool, Fail> {
     let me = std::thread::current().id();
+    struct ClearOnDrop;
+    impl Drop for ClearOnDrop {
+        fn drop(&mut self) {
+            FMT_RECORDER.with(|c| c.set(None));
+        }
+    }
+    // (the lifetime is erased for the thread-local; ClearOnDrop removes the pointer before `rec` can end)
+    FMT_RECORDER.with(|c| c.set(Some(unsafe { std::mem::transmute::<*const (dyn Recorder + Sync + '_), *const (dyn Recorder + Sync + 'static)>(rec as *const (dyn Recorder + Sync)) })));
+    let _clear = ClearOnDrop;
     let mut stack: Vec<(EnteredSpan, MapModel, bool)> = vec![]; // (span, model map, has fields callsite)
     let mut nontrivial = false;
     let mut explicit_parent_differs = false;
@@ -312,6 +345,34 @@ fn run_thread(ops: &[Op2], filter: &Filter, rec: &(dyn Recorder + Sync), log: &c
                     }
                     record_on(&stack[idx].0, *field, val);
                     set(&mut stack[idx].1, FIELDS[*field], val.expected());
+                }
+                Op2::RecordEmitting { level } => {
+                    if stack.is_empty() {
+                        continue;
+                    }
+                    let idx = *level % stack.len();
+                    if !stack[idx].2 {
+                        continue;
+                    }
+                    let before = log.lock().unwrap().iter().filter(|e| e.thread == me).count();
+                    let current_before: MapModel = stack.last().map(|s| s.1.clone()).unwrap_or_default();
+                    stack[idx].0.record("f", tracing::field::debug(EmitOnFmt));
+                    set(&mut stack[idx].1, "f", "emit".to_string());
+                    // what the emission made while the value was being formatted reached the recorder with: the current
+                    // span's labels, complete — for the field being recorded either its earlier or its new value
+                    let l = log.lock().unwrap();
+                    let mine: Vec<_> = l.iter().filter(|e| e.thread == me).skip(before).collect();
+                    for ev in mine.iter().filter(|e| matches!(&e.op, Op::Register { name, .. } if name == "from_fmt")) {
+                        let Op::Register { labels: got, .. } = &ev.op else { continue };
+                        let got_map: std::collections::BTreeMap<String, String> = got.iter().cloned().collect();
+                        let want_old: std::collections::BTreeMap<String, String> = current_before.iter().filter(|(k, v)| admits(filter, "from_fmt", k, v)).cloned().collect();
+                        let mut want_new = want_old.clone();
+                        if idx + 1 == stack.len() && admits(filter, "from_fmt", "f", "emit") {
+                            want_new.insert("f".to_string(), "emit".to_string());
+                        }
+                        ensure!(got_map == want_old || got_map == want_new, "labels-lost-during-record", "a counter emitted while Span::record was formatting its value (span level {} of {}) reached the recorder with {:?}; the current span's labels are {:?} (or {:?} with the new value)", idx, stack.len(), got_map, want_old, want_new);
+                        nontrivial = true;
+                    }
                 }
                 Op2::Emit { kind, name, labels } => {
                     let key = Key::from_parts(name.clone(), labels.iter().map(|(k, v)| Label::new(k.clone(), v.clone())).collect::<Vec<_>>());
